@@ -157,7 +157,7 @@ def run(ctx):
     if len(configs) != r.distinct or len(configs) < 20:
         raise core.MachineryError("configuration matrix incomplete: %d" % len(configs))
     script = make_script(ctx)
-    inputs = make_inputs(ctx, 4 if quick else 100)
+    inputs = make_inputs(ctx, 4 if quick else 60)
     refs = {}
     for inp in inputs:
         a, b = reference(inp, ctx.tmp)
